@@ -40,10 +40,10 @@ var combos = []combo{{"mem", "wait_compact"}, {"mem", "local_deletion"}, {"pebbl
 func planWorlds(seed int64, thorough bool) []worldSpec {
 	var out []worldSpec
 	id := 0
-	nK, nT, nS, nM, rounds := 22, 18, 22, 1, 1
-	actK, actT, actM := 2, 1, 1
+	nK, nT, nS, nM, rounds := 28, 18, 24, 2, 1
+	actK, actT, actM := 3, 2, 1
 	if thorough {
-		nK, nT, nS, nM, rounds = 48, 44, 48, 4, 2
+		nK, nT, nS, nM, rounds = 48, 44, 48, 3, 2
 		actK, actT, actM = 0, 0, 0
 	}
 	add := func(kind string, c combo, f func(r *rand.Rand, sp *worldSpec)) {
@@ -58,6 +58,7 @@ func planWorlds(seed int64, thorough bool) []worldSpec {
 		add("K", c, func(r *rand.Rand, sp *worldSpec) {
 			sp.Tables = []string{"t", "t1", "s"}
 			sp.Act = actK
+			sp.Rounds = 1 // one round already applies every operation family to every tuple (exhaustive pairs)
 			sp.Keys = pickAlphabet(r, keyAlphabetFixed("t"), nK, true, true)
 			sp.Subs = []string{"a", "a:", ""}
 			for _, k := range sp.Keys {
@@ -69,6 +70,7 @@ func planWorlds(seed int64, thorough bool) []worldSpec {
 		add("T", c, func(r *rand.Rand, sp *worldSpec) {
 			sp.Tables = pickAlphabet(r, tableNames(), nT, false, false)
 			sp.Act = actT
+			sp.Rounds = 1
 			sp.Keys = []string{"a", "a:b"}
 			sp.Subs = []string{"a", "a:", "\x00"}
 			for _, t := range sp.Tables {
@@ -433,6 +435,9 @@ func runInterference(c *vc.Ctx, s sink) error {
 		t0 := time.Now()
 		w.run()
 		steps := w.steps
+		if sp.Kind != "BIG" {
+			s.Sample(8, map[string]interface{}{"world": sp, "last_steps": w.recent})
+		}
 		w.close()
 		mu.Lock()
 		fmt.Printf("  world %2d %-5s %-6s %-14s tables=%d keys=%d subs=%d steps=%d alarms=%d %.1fs\n", sp.ID, sp.Kind, sp.Engine, sp.Policy, len(sp.Tables), len(sp.Keys), len(sp.Subs), steps, w.failed, time.Since(t0).Seconds())
